@@ -58,6 +58,11 @@ CHECKS.update({
    text="Valid generated projects (1-3 schema files, 1-5 operation files with imports, random output layout and options) receive 0-3 faults: syntax faults in schema or operation files, a type-system rule fault, an operation rule fault (both confirmed by the reference validators) or an import of a missing file. The real binary runs check / generate / check generate in human, json and rdjson format. Checked: exit 0 iff no fault; stdout is one JSON document; at least one fault is located by file/line/column; every located diagnostic names an input file of the right kind, inside the file and (check stage) at a token start; every offending operation file of the reported stage is named; check and failed generate change nothing in the directory; successful generate writes exactly the files it lists, one declaration file per operation file.",
    note="positions of parse-stage diagnostics are only required to be inside the file; only the first unparsable schema file is demanded (the property speaks of check-stage diagnostics)", ref="DESIGN.md §5 C18"),
 })
+CHECKS.update({
+ "C10": dict(cat="exploration", tech="runtime monitor: emitted schema/resolver declaration files parsed and evaluated by an independent TypeScript-subset evaluator, canonical forms compared with reference denotations per target",
+   text="Valid schemas (hostile descriptions, interface chains, extension splits, scalar mappings in all config forms, schema types renamed to collide with identifiers of scalar mappings, allowUndefinedAsOptionalInput on/off) go through the real SchemaTypePrinter and ResolverTypePrinter. Both texts must parse; for every type x 4 targets the exported alias must denote the reference type (objects: __typename + wrapper-exact fields; abstract types: union of possible objects; enums: literals; inputs: readonly, optional iff nullable per option; scalars: configured type evaluated outside the namespace); the Resolvers map must have a resolver per field with the reference parent/args/context/result and a type resolver per abstract type over exactly its possible types.",
+   note="trusts harness ts.rs (a self-test of hand-checked TypeScript facts runs first; failure = inconclusive) and refts.rs; array readonly-ness is not compared", ref="DESIGN.md §5 C10"),
+})
 NOT_YET = {}
 
 def main():
